@@ -1,5 +1,5 @@
 """Which engine parts decide which property."""
-from .engines import deque, codec, stream, pipe, readn, tlv, vt, atomic
+from .engines import deque, codec, stream, pipe, readn, tlv, vt, atomic, nfs
 
 # part name -> (run(res, work, tier, seed), replay(rep, work))
 PARTS = {
@@ -14,6 +14,7 @@ PARTS = {
     "tlv.main": (tlv.run_tlv, tlv.replay),
     "vt.main": (vt.run_vt, vt.replay),
     "atomic.main": (atomic.run_atomic, atomic.replay),
+    "nfs.main": (nfs.run_nfs, nfs.replay),
 }
 
 # property -> parts whose violations (filtered by property id) decide it
@@ -27,6 +28,7 @@ PROPERTY_PARTS = {
     "C08": ["stream.main"],
     "C17": ["readn.main"],
     "C14": ["vt.main"],
+    "C19": ["nfs.main"],
     "C13": ["atomic.main"],
     "C18": ["atomic.main"],
     "C11": ["tlv.main"],
